@@ -474,6 +474,9 @@ def check(ctx: Ctx) -> None:
     from .c11 import effect_rule
     roots = [f"{CMP}::{c}.evaluate" for c in ("Comparison", "Condition", "BooleanExpression", "DiscreteLookup")]
     ctx.guard("R6.pure", CMP, effect_rule, ctx, CallGraph(ctx.prog), roots, "R6.pure", "criteria evaluation")
+    # end to end: context calibrators / criteria of the second document of C01, also with DEBUG logging switched on
+    from .c01 import end_to_end_second
+    ctx.guard("R6.e2", "xtce/definitions.py", end_to_end_second, ctx, "R6.e2")
 
 
 def mutants(prog):
@@ -515,7 +518,7 @@ SPEC = PropSpec(
     pid="C06",
     title="Match criteria evaluate to the mathematical truth of their comparisons",
     check=check,
-    floors={"R6.1": 16, "R6.cmp": 25, "R6.cond": 54, "R6.bool": 40, "R6.lookup": 1, "R6.2": 4, "R6.pure": 4, "R6.consumer": 2, "R6.xml": 1},
+    floors={"R6.1": 16, "R6.cmp": 25, "R6.cond": 54, "R6.bool": 40, "R6.lookup": 1, "R6.2": 4, "R6.pure": 4, "R6.consumer": 2, "R6.xml": 1, "R6.e2": 10},
     explanation=("(1) Table rule R6.1: every accepted operator spelling maps to the relation it denotes. "
                  "(2) Taint rule R6.2: no truthiness test on a value read from the packet inside the evaluators. "
                  "(3) Decision tables by abstract interpretation of the evaluators' source over model packets and "
